@@ -56,7 +56,7 @@ def parseArg (a : String) : Option Val :=
   | ["u32", n] => n.toNat?.map Val.u32
   | ["u8", n] => n.toNat?.map Val.u8
   | ["bool", b] => some (.bool (b == "true"))
-  | ["str", h] => (strOfHex h).map Val.str
+  | ["str", h] => (bytesOfHex h).map (fun bs => Val.str (String.ofList (bs.map (fun b => Char.ofNat b.toNat))))
   | ["unit"] => some .unit
   | _ => none
 
